@@ -284,7 +284,7 @@ def run(ctx):
     tmax = ctx.budget(75, 900)
     ran = []
     for case in cases:
-        if time.time() - ctx.t0 > tmax and not ctx.replay_in:
+        if time.time() - ctx.t_work > tmax and not ctx.replay_in:
             ctx.count("not-run:time-budget")
             continue
         ran.append(case)
